@@ -172,8 +172,13 @@ def map_error(d, lines, fn_of, blk_of, lab_of, fname):
             # nearest label at or before this line, inside the same block
             ln = s['line_start']
             lab = None
+            # a clause may span several lines with its label at the end of the last one
+            for k in range(s['line_start'], min(s.get('line_end', ln), len(lab_of) - 1) + 1):
+                if blk_of[k] == b and lab_of[k] and re.search(r'//#', lines[k - 1]):
+                    lab = lab_of[k]
+                    break
             k = ln
-            while k > 0 and blk_of[k] == b:
+            while lab is None and k > 0 and blk_of[k] == b:
                 if lab_of[k]:
                     lab = lab_of[k]
                     break
